@@ -67,6 +67,73 @@ def limit_mem():
     resource.setrlimit(resource.RLIMIT_AS, (6 * 2 ** 30, 6 * 2 ** 30))
 
 
+REACH = {
+    # a wire-affecting difference ({T}) inside a named type that the protocol reaches only along the given path
+    "generic-argument": "Sample: !record\n  fields:\n    value: {T}\n\nTagged<X>: !record\n  fields:\n    v: X\n    n: int32\n\nP: !protocol\n  sequence:\n    s: Tagged<Sample>\n",
+    "alias-of-generic-instance": "Sample: !record\n  fields:\n    value: {T}\n\nTagged<X>: !record\n  fields:\n    v: X\n\nAl: Tagged<Sample>\n\nP: !protocol\n  sequence:\n    s: Al\n",
+    "nested-generic-argument": "Sample: !record\n  fields:\n    value: {T}\n\nTagged<X>: !record\n  fields:\n    v: X\n\nP: !protocol\n  sequence:\n    s: Tagged<Tagged<Sample>>\n",
+    "generic-argument-in-container": "Sample: !record\n  fields:\n    value: {T}\n\nTagged<X>: !record\n  fields:\n    v: X\n\nP: !protocol\n  sequence:\n    s: !stream\n      items: !generic {name: Tagged, args: [!map {keys: string, values: !vector {items: Sample}}]}\n",
+    "generic-alias-argument": "Sample: !record\n  fields:\n    value: {T}\n\nMaybe<X>: X?\n\nP: !protocol\n  sequence:\n    s: Maybe<Sample>\n",
+    "union-case-in-generic-argument": "Sample: !record\n  fields:\n    value: {T}\n\nTagged<X>: !record\n  fields:\n    v: X\n\nP: !protocol\n  sequence:\n    s: !generic {name: Tagged, args: [[int8, Sample]]}\n",
+    "field-of-field": "Sample: !record\n  fields:\n    value: {T}\n\nOuter: !record\n  fields:\n    o: Sample*\n\nP: !protocol\n  sequence:\n    s: Outer?\n",
+    "alias-chain": "Sample: {T}\n\nA1: Sample\n\nA2: A1*\n\nP: !protocol\n  sequence:\n    s: A2\n",
+    "enum-as-generic-argument": "Sample: !enum\n  base: {T}\n  values: [p, q]\n\nTagged<X>: !record\n  fields:\n    v: X\n\nP: !protocol\n  sequence:\n    s: Tagged<Sample>\n",
+}
+REACH_DRIVER = """
+import sys, io
+sys.path.insert(0, sys.argv[1])
+import rx
+if sys.argv[2] == 'w':
+    b = io.BytesIO()
+    w = rx.BinaryPWriter(b)
+    try:
+        w.close()
+    except Exception:
+        pass
+    open(sys.argv[3], 'wb').write(b.getvalue())
+else:
+    try:
+        r = rx.BinaryPReader(io.BytesIO(open(sys.argv[3], 'rb').read()))
+        print('ACCEPTED')
+    except Exception as e:
+        print('REFUSED', type(e).__name__)
+"""
+
+
+def reachability_layer(ctx):
+    """two models that differ only inside a named type the protocol reaches along an indirect path (generic arguments, aliases,
+    containers): the reader generated for one must refuse the header the writer generated for the other puts on a stream"""
+    from vlib import sh, PY_VT
+    drv = os.path.join(ctx.scratch, "reach_driver.py")
+    open(drv, "w").write(REACH_DRIVER)
+    for path, tmpl in REACH.items():
+        dirs = {}
+        for side, t in (("a", "int32"), ("b", "uint32")):
+            d = os.path.join(ctx.scratch, "reach_%s_%s" % (path, side))
+            os.makedirs(d + "/model")
+            open(d + "/model/_package.yml", "w").write("namespace: Rx\npython:\n  outputDir: ../python\n")
+            open(d + "/model/model.yml", "w").write(tmpl.replace("{T}", t))
+            rc, o, e = sh([ctx.yardl, "generate"], cwd=d + "/model", timeout=120)
+            if rc != 0:
+                raise RuntimeError("yardl rejected the reachability model %s: %s" % (path, (o + e)[-600:]))
+            dirs[side] = d
+        for wside, rside in (("a", "b"), ("b", "a"), ("a", "a")):
+            f = os.path.join(ctx.scratch, "reach_%s_%s.bin" % (path, wside))
+            sh([PY_VT, drv, dirs[wside] + "/python", "w", f], timeout=120)
+            rc, o, e = sh([PY_VT, drv, dirs[rside] + "/python", "r", f], timeout=120)
+            accepted = o.startswith("ACCEPTED")
+            ctx.count("pair_reader", "python/binary-header")
+            ctx.case(("reach", path, wside, rside), nontrivial=wside != rside,
+                     sample={"kind": "indirectly-reached type differs", "path": path, "writer": wside, "reader": rside, "accepted": accepted})
+            rep = {"path": path, "writer_model": tmpl.replace("{T}", "int32" if wside == "a" else "uint32"),
+                   "reader_model": tmpl.replace("{T}", "int32" if rside == "a" else "uint32"), "reader_output": (o + e)[-400:]}
+            if wside == rside and not accepted:
+                ctx.report("own-refused:reach:" + path, "the generated Python reader refuses the header written by its own writer (%s)" % path, rep)
+            if wside != rside and accepted:
+                ctx.report("foreign-accepted:reach:" + path, "two models differ only in `value: int32` / `value: uint32` inside a type the "
+                           "protocol reaches through %s; the reader generated for one accepts the stream header written under the other" % path, rep)
+
+
 def run(ctx):
     ctx.build_repo(need_hook=True)
     ok, failing, log = ctx.coq_props("C15")
@@ -82,6 +149,7 @@ def run(ctx):
                    {"broken": failing, "log": log[-3000:]}, no_input=True)
     quick = ctx.tier == "quick"
     rng = ctx.rng
+    reachability_layer(ctx)
     ids = VARIANTS if not quick else [0, 1, 2, 4, 6, 7, 9, 12, 13, 14, 15, 16]
     gps = {}
     for i in ids:
